@@ -184,7 +184,8 @@ class World:
         p = self.abs(rel)
         os.makedirs(os.path.dirname(p), exist_ok=True)
         old = self._mtimes.get(rel)  # also remembered across a remove + re-create of the same path
-        with open(p, "w", encoding="utf-8", newline="") as f:
+        # lone surrogates U+DC80..U+DCFF in the text stand for the raw bytes 0x80..0xFF (a file that is not valid UTF-8)
+        with open(p, "w", encoding="utf-8", errors="surrogateescape", newline="") as f:
             f.write(text)
         if old is not None and self.mtime_policy != "advance":
             delta = 0 if self.mtime_policy == "same" else -10_000_000_000
